@@ -49,7 +49,8 @@ class Conn(object):
     self.rxbuf = bytearray()        # delivered, not yet read by the client
     self.client_closed = False
     self.server_closed = None       # None | 'fin' | 'rst'
-    self.silenced = False           # server->client data is dropped from now on
+    self.silenced = False           # peer hangs: server->client data is held back
+    self._held = []
     self.sock = None
     self.handler = None
     self.ops = {'send': 0, 'recv': 0}
@@ -105,6 +106,7 @@ class Conn(object):
         if self.client_closed:
           return
         if self.silenced:
+          self._held.append(piece)      # the peer hangs: nothing arrives until it resumes
           continue
         self.rxbuf += piece
         self.s2c_delivered += len(piece)
@@ -112,6 +114,18 @@ class Conn(object):
           self.sock._wake()
     finally:
       self._wire_busy = False
+
+  def resume(self):
+    """The hung peer continues: everything it held back arrives, in order."""
+    self.silenced = False
+    held, self._held = self._held, []
+    for piece in held:
+      if self.client_closed:
+        break
+      self.rxbuf += piece
+      self.s2c_delivered += len(piece)
+    if held and self.sock is not None:
+      self.sock._wake()
 
   def close_by_server(self, how='fin', delay=0.0):
     def do():
@@ -277,7 +291,8 @@ class SimSocket(object):
     if mode == 'blackhole':
       # SYNs are dropped; the kernel retransmits after 1,2,4,... seconds and
       # gives up with ETIMEDOUT (Linux default: 6 retries = 127 s)
-      srv.connect_attempts.append((t0, 'blackhole'))
+      att = [t0, 'blackhole', None]
+      srv.connect_attempts.append(att)
       waited, step, mode = 0.0, 1.0, None
       while waited < srv.syn_timeout:
         self._block(min(step, srv.syn_timeout - waited))
@@ -289,8 +304,10 @@ class SimSocket(object):
           mode = srv.mode
           break
       if mode is None:
+        att[2] = env.now
         env.emit('net.connect.end', ep=srv.ep, result='syn-timeout')
         raise _oserr(errno.ETIMEDOUT)
+      srv.connect_attempts.remove(att)     # resolved by a retransmitted SYN: recorded below
     lat = srv.latency()
     if lat > 0:
       self._block(lat)       # interruptible by Timeout/kill/close
@@ -300,11 +317,11 @@ class SimSocket(object):
     if f is None:
       mode = srv.mode if srv.mode != 'blackhole' else 'refuse'
     if mode == 'refuse':
-      srv.connect_attempts.append((t0, 'refused'))
+      srv.connect_attempts.append([t0, 'refused', env.now])
       env.emit('net.connect.end', ep=srv.ep, result='refused')
       raise _oserr(errno.ECONNREFUSED)
     if mode == 'error':
-      srv.connect_attempts.append((t0, 'error'))
+      srv.connect_attempts.append([t0, 'error', env.now])
       env.emit('net.connect.end', ep=srv.ep, result='error')
       raise _oserr(f.err)
     conn = Conn(self.net, srv, len(srv.conns))
@@ -312,7 +329,7 @@ class SimSocket(object):
     srv.conns.append(conn)
     self.net.all_conns.append(conn)
     self.conn = conn
-    srv.connect_attempts.append((t0, 'ok'))
+    srv.connect_attempts.append([t0, 'ok', env.now])
     conn.handler = srv.handler_factory(conn) if srv.handler_factory else None
     env.emit('net.connect.end', ep=srv.ep, result='ok', conn=conn.id)
 
@@ -382,6 +399,7 @@ class SimSocket(object):
         return 0
       if f.kind == 'silence':
         conn.silenced = True
+        conn._held.append(bytes(conn.rxbuf))
         conn.rxbuf = bytearray()
     while True:
       if self.closed:
